@@ -207,6 +207,9 @@ class Seq:
 
 
 class SetV:
+    """`opaque`: the set additionally holds zero or more anonymous elements, none of which is a named individual."""
+    opaque = False
+
     def __init__(self, items=(), frozen=False):
         self.items = []
         self.frozen = frozen
@@ -219,6 +222,9 @@ class SetV:
 
 
 class DictV:
+    """`opaque`: the dict additionally holds zero or more entries whose keys are anonymous (no named individual)."""
+    opaque = False
+
     def __init__(self, pairs=()):
         self.pairs = [list(p) for p in pairs]
 
@@ -1362,8 +1368,12 @@ class Interp:
                 return self.truth(n)
             return True
         if isinstance(v, SetV):
+            if v.opaque and not v.items:
+                raise Unknown("truth value of an opaque set")
             return len(v.items) > 0
         if isinstance(v, DictV):
+            if v.opaque and not v.pairs:
+                raise Unknown("truth value of an opaque dict")
             return len(v.pairs) > 0
         if isinstance(v, ProxyV):
             return self.truth(v.d)
@@ -1940,6 +1950,8 @@ class Interp:
             out = v.items[v.pos :]
             v.pos = len(v.items)
             return out
+        if isinstance(v, (SetV, DictV)) and v.opaque:
+            raise Unknown("iterating over an opaque set/dict")
         if isinstance(v, SetV):
             items = list(v.items)
             if len(items) <= 1 or self.w.set_order == "insertion":
